@@ -326,7 +326,9 @@ class Ctx:
             return []
         nproc = nproc or NPROC
         e = dict(os.environ)
-        e.setdefault("ASAN_OPTIONS", "detect_leaks=0:abort_on_error=0:allocator_may_return_null=1")
+        # a runaway allocation is a result (the harness aborts when malloc fails), never a danger to the sandbox
+        e.setdefault("ASAN_OPTIONS", "detect_leaks=0:abort_on_error=0:allocator_may_return_null=1:"
+                                     "max_allocation_size_mb=512:hard_rss_limit_mb=3072")
         e.setdefault("UBSAN_OPTIONS", "print_stacktrace=1")
         e["LC_ALL"] = "C.UTF-8"
         if env:
